@@ -398,6 +398,44 @@ func mkEntries(w *evWorld) []entry {
 
 var spareBuf = make([]byte, 2<<20)
 
+// codecProbe serialises a fixed extension-profile value to CBOR and JSON and populates fresh values from both: "ok" when
+// all of it works and gives the bytes / values of the first time, "panic" or "diff" otherwise.
+var codecProbeRef [2][]byte
+
+func codecProbe() (out string) {
+	out = "ok"
+	defer func() {
+		if recover() != nil {
+			out = "panic"
+		}
+	}()
+	one, txt := 7, "probe"
+	val := &ShWithIface{W1: &one, ShIface: &ShLeaf{L1: &one}, W2: &txt}
+	cb, err := encoding.SerializeStructToCBOR(xem, val)
+	if err != nil {
+		return "diff"
+	}
+	jb, err := encoding.SerializeStructToJSON(val)
+	if err != nil {
+		return "diff"
+	}
+	if codecProbeRef[0] == nil {
+		codecProbeRef = [2][]byte{append([]byte{}, cb...), append([]byte{}, jb...)}
+	}
+	if !bytes.Equal(cb, codecProbeRef[0]) || !bytes.Equal(jb, codecProbeRef[1]) {
+		return "diff"
+	}
+	back := &ShWithIface{ShIface: &ShLeaf{}}
+	if err := encoding.PopulateStructFromCBOR(xdm, append([]byte{}, cb...), back); err != nil || back.W1 == nil || *back.W1 != 7 {
+		return "diff"
+	}
+	back2 := &ShWithIface{ShIface: &ShLeaf{}}
+	if err := encoding.PopulateStructFromJSON(append([]byte{}, jb...), back2); err != nil || back2.W2 == nil || *back2.W2 != "probe" {
+		return "diff"
+	}
+	return "ok"
+}
+
 // withComponents returns the CBOR token tok with its software-components array replaced by n copies of item.
 func withComponents(tok []byte, n int, item []byte) []byte {
 	root := cloneNode(rawNode(tok))
@@ -469,6 +507,9 @@ func init() {
 							followClaims(r, &ev.Follow)
 						}
 					}
+					// whatever the input did (accepted or refused), the codec still serialises and populates a fixed valid value
+					// exactly as before: nothing an input leaves behind may make a later call panic or change its result
+					ev.Follow = append(ev.Follow, codecProbe())
 				}
 				t.Emit(ev, true, ev.Out != "err")
 				b++
